@@ -52,7 +52,7 @@ class ParseSource:
         Precondition: has_current_line
         """
         s = self.remaining_part_of_current_line
-        return not s or s.isspace()
+        return not s.strip(' \t\r\n')
 
     @property
     def current_line_number(self) -> int:
@@ -102,7 +102,7 @@ class ParseSource:
 
     def consume_initial_space_on_current_line(self):
         while self._column_index < len(self._current_line_text):
-            if self.current_line_text[self._column_index].isspace():
+            if self.current_line_text[self._column_index] in ' \t':
                 self._column_index += 1
             else:
                 break
